@@ -56,47 +56,54 @@ def _entry(md, name, kind, w, depth, init, rp, wp, addrs, datas, wens, edges, tb
 
 
 def model_entries(md, thorough, rng):
+    """Alphabets are kept small on purpose: the number of edges of a graph (= events replayed on the real memory)
+    is  states x labels,  and labels multiply over the ports that can act in an event."""
     E = []
     # one transparent sync read + one granular write port, same domain
     E.append(_entry(md, "u2x2-RAt-WAg1", "u", 2, 2, [2], [("A", [1])], [("A", 1)],
-                    [0, 1], [1, 2], [[0, 1, 2, 3]], [1], [3]))
+                    [0, 1], [[1, 2]], [[0, 1, 2, 3]], [1], [3]))
     # non-power-of-two depth: address 3 is out of range; comb + transparent port; both domains ticking
     E.append(_entry(md, "u2x3-RAt,comb-WAg0", "u", 2, 3, [1], [("A", [1]), ("comb", [])], [("A", None)],
-                    [0, 2, 3], [1, 2], [[0, 1]], [1, 2, 3], [3]))
-    # two domains, non-transparent read in the other domain (cross-domain hazard at coincident edges)
-    E.append(_entry(md, "u4x2-RAt,B-WAg2,Bg0", "u", 4, 2, [5, 9], [("A", [1]), ("B", [])], [("A", 2), ("B", None)],
-                    [0, 1], [6, 9], [[0, 1, 3], [0, 1]], [1, 2, 3], [10]))
+                    [0, 2, 3], [[1, 2]], [[0, 1]], [1, 2, 3], [3]))
+    # two domains: read port in B, write port in A (cross-domain hazard at coincident edges)
+    E.append(_entry(md, "u4x2-RB-WAg2", "u", 4, 2, [5, 9], [("B", [])], [("A", 2)],
+                    [0, 1], [[6]], [[0, 1, 3]], [1, 2, 3], [10]))
     # signed rows, depth 1 (zero-width address)
     E.append(_entry(md, "s3x1-RB-WBg0", "s", 3, 1, [-3], [("B", [])], [("B", None)],
-                    [0], [3, 5], [[0, 1]], [2, 3], [-2, 3]))
+                    [0], [[3, 5]], [[0, 1]], [2, 3], [-2, 3]))
     # aggregate rows, element granularity, transparent and non-transparent read of the same write port
-    E.append(_entry(md, "arr22x4-RAt,A-WAg1", "arr", 0, 4, [[1, 2]], [("A", [1]), ("A", [])], [("A", 1)],
-                    [0, 3], [6, 9], [[0, 1, 2, 3]], [1], [[3, 1]], ew=2, n=2))
+    E.append(_entry(md, "arr22x3-RAt,A-WAg1", "arr", 0, 3, [[1, 2]], [("A", [1]), ("A", [])], [("A", 1)],
+                    [0, 2], [[6]], [[0, 1, 3]], [1], [], ew=2, n=2))
     # depth 0: nothing to store, every address is out of range
     E.append(_entry(md, "u2x0-RAt,comb-WAg1", "u", 2, 0, [], [("A", [1]), ("comb", [])], [("A", 1)],
-                    [0], [1, 2], [[0, 1, 3]], [1, 3], []))
-    # two write ports in one domain with different granularities (collisions), read transparent for both / for one
-    E.append(_entry(md, "u4x2-RAt12,At2-WAg2,Ag1", "u", 4, 2, [3], [("A", [1, 2]), ("A", [2])], [("A", 2), ("A", 1)],
-                    [0, 1], [5, 10], [[0, 1, 2], [0, 6, 9]], [1], []))
+                    [0], [[1, 2]], [[0, 1, 3]], [1, 3], []))
+    # two write ports in one domain with different granularities (collisions), read transparent for one of them
+    E.append(_entry(md, "u4x1-RAt2-WAg2,Ag1", "u", 4, 1, [3], [("A", [2])], [("A", 2), ("A", 1)],
+                    [0], [[5], [10]], [[0, 1, 2], [0, 6, 9]], [1], []))
     # read-only memory
     E.append(_entry(md, "u2x2-rom-Rcomb,RA", "u", 2, 2, [1, 2], [("comb", []), ("A", [])], [],
-                    [0, 1], [0], [], [1, 2, 3], []))
+                    [0, 1], [], [], [1, 2, 3], []))
     # write-only memory, two domains, granularity = full width
     E.append(_entry(md, "u4x3-WAg0,Bg4", "u", 4, 3, [], [], [("A", None), ("B", 4)],
-                    [0, 2, 3], [6, 9], [[0, 1], [0, 1]], [1, 2, 3], [15]))
+                    [0, 2, 3], [[6], [9]], [[0, 1], [0, 1]], [1, 2, 3], [15]))
     if thorough:
-        for t in range(14):
+        # four ports, two domains, minimal alphabets
+        E.append(_entry(md, "u4x2-RAt,B-WAg2,Bg0", "u", 4, 2, [5, 9], [("A", [1]), ("B", [])], [("A", 2), ("B", None)],
+                        [0, 1], [[6], [10]], [[0, 1, 3], [0, 1]], [1, 2, 3], []))
+        E.append(_entry(md, "u4x2-RAt12,At2-WAg2,Ag1", "u", 4, 2, [3], [("A", [1, 2]), ("A", [2])],
+                        [("A", 2), ("A", 1)], [0, 1], [[5], [10]], [[0, 2], [0, 6]], [1], []))
+        for t in range(12):
             kind = rng.choice(["u", "u", "s", "arr"])
             w = rng.choice([2, 4]) if kind == "u" else 3
             ew, n = (2, 2) if kind == "arr" else (0, 0)
             if kind == "arr":
                 w = 4
-            depth = rng.choice([1, 2, 3, 3, 4])
+            depth = rng.choice([1, 2, 3, 3])
             nw = rng.choice([1, 1, 2])
             nr = rng.choice([1, 2]) if nw == 1 else rng.choice([0, 1])
             wp = []
             for _ in range(nw):
-                gran = None if kind == "s" else rng.choice([None, 1, (n if kind == "arr" else w) // 2 or 1])
+                gran = None if kind == "s" else rng.choice([None, 1, (n if kind == "arr" else w) // 2])
                 wp.append((rng.choice("AB"), gran))
             rp = []
             for _ in range(nr):
@@ -105,20 +112,19 @@ def model_entries(md, thorough, rng):
             init = [md.rand_value(rng, kind, w, ew, n) for _ in range(rng.randint(0, depth))]
             cfg = md.make_cfg(kind, w, depth, init, rp, wp, ew=ew, n=n)
             amax = (1 << cfg["aw"]) - 1
-            addrs = sorted({0, depth - 1, amax})[:2 if nw + nr > 2 else 3]
-            datas = [rng.getrandbits(w)]
-            datas.append(datas[0] ^ ((1 << w) - 1))
+            addrs = sorted({0, amax})
+            datas = [[rng.getrandbits(w)] for _ in wp]
             wens = [sorted({0, (1 << p["ng"]) - 1, rng.getrandbits(p["ng"])}) for p in cfg["wp"]]
             E.append({"name": "rnd%d-%s" % (t, md.cfg_name(cfg).replace(" ", "-")), "cfg": cfg, "addrs": addrs,
                       "datas": datas, "wens": wens, "edges": [1, 2, 3],
-                      "tbvals": [md.rand_value(rng, kind, w, ew, n)]})
+                      "tbvals": [md.rand_value(rng, kind, w, ew, n)] if nw + nr <= 2 else []})
     return E
 
 
 # (mutant, configuration name, invariant that must be violated)
 MUTANTS = [
     ("transparent_for_any_address", "u2x2-RAt-WAg1", "ReadCapturesOldRow"),
-    ("read_sees_rows_after_write", "arr22x4-RAt,A-WAg1", "ReadCapturesOldRow"),
+    ("read_sees_rows_after_write", "arr22x3-RAt,A-WAg1", "ReadCapturesOldRow"),
     ("write_wraps_around", "u2x3-RAt,comb-WAg0", "WriteBeyondDepthChangesNothing"),
     ("granule_order_reversed", "u2x2-RAt-WAg1", "ContractHolds"),
     ("read_ignores_enable", "s3x1-RB-WBg0", "DisabledReadPortHolds"),
